@@ -3,7 +3,7 @@ _T = {}
 _FORMS = ["in", "in_not", "exists", "exists_not", "scalar_agg", "scalar_row"]
 ENTRY = {
     "level": "proof",
-    "families": [fam("C23", 400, 15000, opts={"quick": _Q, "thorough": _T})],
+    "families": [fam("C23", 400, 4000, opts={"quick": _Q, "thorough": _T})],
     "gen_items": [],
     "rule": "one statement in three runs over an outer table holding FULLY duplicate rows (2-4 copies incl. id0, shuffled into the same and into different batches; tag outer:dup-rows) so that the row-by-row paths' per-outer-row caches (set/get_correlated_cache) get hits; generated statements over an outer table t0(id0,k0,x0,v0) and an inner table t1(id1,k1,y1,w1) (0-33 x 0-27 rows, key/operand types BIGINT/INTEGER/VARCHAR/DOUBLE/DATE, "
             "NULL density 0/10/50/100 % per column, duplicate correlation values, empty tables and empty subquery results): x [NOT] IN (SELECT y ...), [NOT] EXISTS (...), "
